@@ -13,6 +13,16 @@ CLAIMS = {
  "C07": ("HealthSched.tla specifies one endpoint's health record (status, consecutive failures, backoff multiplier, next-due), the health breaker (INSTANCE HealthBreaker), the recovery callback and the proxy's second writer; TLC checks classification, the x1,2,4,8,12 schedule, 'a due round is real whenever the breaker admits', bounded real probing under a ticking scheduler and recovery as liveness; TLC-generated transition covers and random walks are replayed on the real HTTPHealthChecker/HealthClient/CircuitBreaker/StaticEndpointRepository/RetryHandler against a scripted HTTP backend with logical time, and every stored record, probe and callback is validated against the spec.",
          "Trusted: TLC, the logical-clock shim (stored timestamps shifted; all model times are whole seconds and no tick sum hits a threshold exactly), scripted backend. One endpoint per scenario; the writer/writer race between a running probe and markEndpointUnhealthy is not scheduled deterministically.",
          "DESIGN.md section 5 C07"),
+ "C02": ("Dispatch.tla models a proxied request from candidate snapshot to the client's last byte (attempts, fault plans, failover, engine breaker, gauges, counters); TLC model-checks NoRedispatch/AtMostOnce/GaugeExact/Conserved over 2 endpoints x 2 requests x all fault kinds, then enumerates every fault assignment (9 socket-level fault kinds per endpoint) x engine x balancer x framing plus concurrent bursts; each scenario runs through the fully assembled server (real ServiceManager) against raw-TCP scripted backends that stamp every body token with (endpoint, attempt), and TLC validates the recorded trace: an attempt after the response started, bytes of two attempts, or olla-made text after backend headers are rejected.",
+         "Trusted: TLC, harness/lib (backend, raw client, token attribution), event-to-action map. Concurrent bursts only use faults that do not change shared status (ok, reset after bytes).", "DESIGN.md section 5 C02"),
+ "C03": ("Same Dispatch specification and full-stack traces, with TLC enumerating boot health (up / 503 / connection refused) per endpoint x model placement x requested model x balancer: every backend contact must be a member of the request's candidate snapshot (healthy at arrival and listing the model), endpoints marked offline by a failed attempt or health round receive nothing until a health round readmits them; second part: Balancer.tla membership clause over every (list, status, priority) input on the real selectors.",
+         "Trusted: as C02. Repository writes are ordered by the harness (forced health rounds); overlapping probe writes are not scheduled.", "DESIGN.md section 5 C03"),
+ "C04": ("Same Dispatch specification: connection-level failures before any byte (refused, reset) and open engine breakers must lead to the next candidate, each candidate at most once, same request signature on every attempt, failure only when every candidate is tried or skipped, failed endpoints out of rotation (repository polled after every request). TLC enumerates fault assignments for 2-4 endpoints, three-step histories with health rounds, and 11-request breaker-opening sequences; all replayed on the full stack.",
+         "Trusted: as C02. Dial timeouts cannot be produced in the sealed sandbox (no black-hole address); that clause is exercised only through refused/reset connections.", "DESIGN.md section 5 C04"),
+ "C05": ("Same Dispatch specification, front-end clauses: when no backend produced a response the client gets a status >= 400 with a non-empty body within 3 s, an Anthropic error object on the Anthropic routes (buffered and streaming, translated and passthrough), and a backend's own 4xx/5xx (OpenAI envelope, non-envelope JSON, 20 KB error page) keeps its status. TLC enumerates failure cause x route family x stream x engine x endpoint type.",
+         "Trusted: as C02; body classes are computed by the harness from the bytes (JSON shape only).", "DESIGN.md section 5 C05"),
+ "C19": ("Same Dispatch specification, statistics clauses: the in-flight gauge is sampled by the backend while it holds each attempt (must equal the number of attempts in flight) and at quiescence gauges must be zero and per-endpoint counters must record every attempt exactly once, as a success iff the client received a complete response with a success status; total = ok + fail at endpoint and global scope.",
+         "Trusted: as C02. Model and translator scopes are not compared in this revision; panics inside an attempt are not injected.", "DESIGN.md section 5 C19"),
 }
 NA_REASON = "check not built yet in this revision (planned, see DESIGN.md section 5)"
 def main():
